@@ -26,8 +26,14 @@
 #include "contracts/common.h"
 #include <aws/common/linked_list.h>
 
-#define LL_K 6
-#define LL_NL 2
+/* universe size: per unit (-DLL_K=.. -DLL_NL=..), chosen >= the number of nodes the operation can touch
+ * (swap_nodes: a, b and four neighbours = 6; sentinels of a list count as nodes that may have a NULL link) */
+#ifndef LL_K
+#    define LL_K 6
+#endif
+#ifndef LL_NL
+#    define LL_NL 2
+#endif
 #define LL_HEAD(l) (LL_K + 2 * (l))
 #define LL_TAIL(l) (LL_K + 2 * (l) + 1)
 #define LL_OUTSIDE (LL_K + 2 * LL_NL)
@@ -35,7 +41,7 @@
 #define LL_NONE LL_N /* index form of NULL */
 
 static struct aws_linked_list_node ll_node[LL_K];
-static struct aws_linked_list ll_list[LL_NL];
+static struct aws_linked_list ll_list[LL_NL + 1]; /* +1: no zero-length array when LL_NL == 0 */
 static struct aws_linked_list_node ll_outside;
 
 static size_t ll_nx[LL_N], ll_pv[LL_N];       /* pre-state, index form  */
@@ -83,10 +89,13 @@ static bool ll_detached(size_t t) {
     }
     return ok;
 }
-/* aws_linked_list_is_valid + sentinels are distinct from the interior */
+/* aws_linked_list_is_valid, and the first/last element of a non-empty list is a client node (sentinels are linked only
+ * by aws_linked_list_init; every insertion adds a client node) */
+#define LL_IS_CLIENT(i) ((i) < LL_K || (i) == LL_OUTSIDE)
 static bool ll_list_ok(size_t l) {
-    return ll_pv[LL_HEAD(l)] == LL_NONE && ll_nx[LL_TAIL(l)] == LL_NONE && ll_nx[LL_HEAD(l)] != LL_NONE &&
-           ll_pv[LL_TAIL(l)] != LL_NONE;
+    size_t f = ll_nx[LL_HEAD(l)], b = ll_pv[LL_TAIL(l)];
+    return ll_pv[LL_HEAD(l)] == LL_NONE && ll_nx[LL_TAIL(l)] == LL_NONE && f != LL_NONE && b != LL_NONE &&
+           (f == LL_TAIL(l) || LL_IS_CLIENT(f)) && (b == LL_HEAD(l) || LL_IS_CLIENT(b));
 }
 
 /* post-state check: the real nodes equal the expected state everywhere (exact result AND frame), and LL_INV holds */
